@@ -77,6 +77,9 @@ def check_case(ctx, case):
     with tempfile.TemporaryDirectory() as d:
         # ---- ASCII
         p = os.path.join(d, "cat.csv")
+        if case.get("pathlib"):
+            import pathlib
+            p = pathlib.Path(p)          # file names are accepted as str and as pathlib.Path
         hdr = case["header"]
         if case["append"] and len(events) >= 2:
             h = len(events) // 2
@@ -113,6 +116,8 @@ def check_case(ctx, case):
                     check_meta(ctx, "dict:second_region_same_extent", o.value, case, Lv, region_v)
         # ---- JSON
         pj = os.path.join(d, "cat.json")
+        if case.get("pathlib"):
+            pj = pathlib.Path(pj)
         o = call(lambda: (fresh().write_json(pj), CSEPCatalog.load_json(pj))[1])
         if not o.ok:
             ctx.unexpected(o, "json_roundtrip")
@@ -208,6 +213,8 @@ def cases(draw):
             x0, y0 = L._coord(L.lon0, i), L._coord(L.lat0, j)
             e[3] = x0 if fx == 0 else x0 + fx * L.fdh
             e[2] = y0 if fy == 0 else y0 + fy * L.fdh
+    if draw(st.integers(0, 3)) == 0:
+        c["pathlib"] = True
     if n and draw(st.integers(0, 15)) == 0:
         c["repeat"] = draw(st.sampled_from([50, 200]))
     return draw_tz(draw, c)
